@@ -29,7 +29,7 @@
  * small buffers; real codecs under ASan and the real buffer size need well under a second) */
 #ifndef H_WATCHDOG_S
 #ifdef H_REAL_CODECS
-#define H_WATCHDOG_S 30
+#define H_WATCHDOG_S 10
 #else
 #define H_WATCHDOG_S (H_BUFSZ < 65536 ? 1 : 60)
 #endif
